@@ -258,7 +258,7 @@ def check(tier, seed):
     except fw.CheckFailure as e:
         model_err = str(e)
 
-    n = 150 if tier == 'quick' else 2500
+    n = 150 if tier == 'quick' else 12000
     texts = []
     for j in range(n):
         texts.append(('graph', gen_graph_text(rng)))
@@ -304,7 +304,7 @@ def check(tier, seed):
                 mismatches.append((j, simple_diff(w, m[1])))
             elif m[2] != m[1]:
                 mismatches.append((j, 'model: a second cleanup changes the abstract module'))
-    probe = P.probe_cleanup(rng.randrange(1 << 30), per=2 if tier == 'quick' else 5)
+    probe = P.probe_cleanup(rng.randrange(1 << 30), per=2 if tier == 'quick' else 8)
     table_bad = []
     for sid, h, f, p in P.instances():
         k = P.inst_key(sid, p)
